@@ -144,32 +144,37 @@ pub fn char_gt_eq(vm: &mut Vm) -> Result<VCell, Error> {
     char_comp(vm, "char>=?", |x, y| x >= y)
 }
 
+/// Fold Case
+///
+/// The case folding of char-foldcase, used by the case-insensitive comparisons.
+fn fold_case(c: &char) -> char {
+    if c.is_ascii() {
+        c.to_ascii_lowercase()
+    } else if c.to_lowercase().count() == 1 {
+        c.to_lowercase().next().unwrap()
+    } else {
+        *c
+    }
+}
+
 pub fn char_ci_eq(vm: &mut Vm) -> Result<VCell, Error> {
-    char_comp(vm, "char-ci=?", |x, y| x.eq_ignore_ascii_case(y))
+    char_comp(vm, "char-ci=?", |x, y| fold_case(x) == fold_case(y))
 }
 
 pub fn char_ci_lt(vm: &mut Vm) -> Result<VCell, Error> {
-    char_comp(vm, "char-ci<?", |x, y| {
-        x.to_ascii_lowercase() < y.to_ascii_lowercase()
-    })
+    char_comp(vm, "char-ci<?", |x, y| fold_case(x) < fold_case(y))
 }
 
 pub fn char_ci_lt_eq(vm: &mut Vm) -> Result<VCell, Error> {
-    char_comp(vm, "char-ci<=?", |x, y| {
-        x.to_ascii_lowercase() <= y.to_ascii_lowercase()
-    })
+    char_comp(vm, "char-ci<=?", |x, y| fold_case(x) <= fold_case(y))
 }
 
 pub fn char_ci_gt(vm: &mut Vm) -> Result<VCell, Error> {
-    char_comp(vm, "char-ci>?", |x, y| {
-        x.to_ascii_lowercase() > y.to_ascii_lowercase()
-    })
+    char_comp(vm, "char-ci>?", |x, y| fold_case(x) > fold_case(y))
 }
 
 pub fn char_ci_gt_eq(vm: &mut Vm) -> Result<VCell, Error> {
-    char_comp(vm, "char-ci>=?", |x, y| {
-        x.to_ascii_lowercase() >= y.to_ascii_lowercase()
-    })
+    char_comp(vm, "char-ci>=?", |x, y| fold_case(x) >= fold_case(y))
 }
 
 fn char_comp(vm: &mut Vm, name: &str, comp: impl Fn(&char, &char) -> bool) -> Result<VCell, Error> {
